@@ -1,0 +1,8 @@
+//go:build !verif
+
+// Package verifhook exposes named observation points used by external
+// verification tooling. Without the "verif" build tag every point is a no-op.
+package verifhook
+
+// Point is a no-op unless the package is built with the "verif" tag.
+func Point(name string, subject interface{}, args ...interface{}) {}
